@@ -35,12 +35,13 @@ import threading
 from . import core
 from .core import Violation, Stats, EventLog, enc_payload, dec_payload
 from .forkserver import ForkServer
-from .histsim import pack, exc_sig, factory_class
+from .histsim import pack, exc_sig, factory_class, resolve_image_kwargs, STYLED_DRAWERS, \
+    STYLED_MASKS
 from . import traced
 
 PROP = "C19"
 WATCHDOG_S = 900
-MAX_POINTS = 6_000_000
+MAX_POINTS = 12_000_000
 OPCODE_FUNCS = {"makeImpl", "register_namespace"}
 OPCODE_INIT_FILES = ("qrcode/image/svg.py",)
 
@@ -85,7 +86,7 @@ def run_program(prog, yield_hook=None):
                 qr.print_tty(out=s)
                 res = s.text()
             elif kind == "image":
-                kw = dict(step[3]) if len(step) > 3 else {}
+                kw = resolve_image_kwargs(step[1], dict(step[3]) if len(step) > 3 else {})
                 img = qr.make_image(factory_class(step[1]), **kw)
                 if step[2] == "to_string" and hasattr(img, "to_string"):
                     res = img.to_string()
@@ -304,6 +305,7 @@ class Sched:
         self.access_log = []            # (tid, dict, kind, key)
         self.windows = 0                # switches that happened at a shared access
         self.sub_line_targets = 0
+        self.capped = False
         self.strategy = strategy or {"kind": "explicit"}
         self.rng = rng
         self.threads = []
@@ -328,7 +330,15 @@ class Sched:
         self.walk_p = self.strategy.get("p") if self.strategy["kind"] == "walk" else None
         self.walk_next = self._geom(0) if self.walk_p else INF
         self.access_p = self.strategy.get("p_access", 0.0) if \
-            self.strategy["kind"] == "access" else 0.0
+            self.strategy["kind"] in ("access", "hot") else 0.0
+        self.hot_p = self.strategy.get("p_hot", 0.0) if self.strategy["kind"] == "hot" else 0.0
+        self.hot = {}
+        if self.hot_p:
+            for fn, ln in static_hot_lines():
+                self.hot.setdefault(ln, []).append(fn)
+            for st_ in self.S:
+                st_.append(frozenset(self.hot))
+        self.hot_hits = 0
 
     def gstep(self):
         return sum(s[0] for s in self.S)
@@ -366,8 +376,6 @@ class Sched:
             nxt = min(nxt, s[0] + (gt[0] - g))
         if self.walk_next < INF:
             nxt = min(nxt, s[0] + max(self.walk_next - g, 1))
-        if MAX_POINTS - g < INF:
-            nxt = min(nxt, s[0] + max(MAX_POINTS - g, 1))
         s[1] = nxt
 
     # ---- baton ------------------------------------------------------------
@@ -445,6 +453,12 @@ class Sched:
         (fn:ln) was reached."""
         s = self.S[me]
         ls = s[0]
+        if self.hot_p and ln in self.hot and any(fn.endswith(h) for h in self.hot[ln]):
+            # a line that writes (or reads) a process-wide scalar: an access point
+            self.hot_hits += 1
+            if self.rng.random() < self.hot_p:
+                self._yield_to_next(me, ["step", me, ls])
+                return
         if s[2] == ln and fn.endswith(s[3]):
             s[4] -= 1
             if s[4] <= 0:
@@ -467,7 +481,12 @@ class Sched:
             return
         g = self.gstep()
         if g >= MAX_POINTS:
-            raise core.HarnessError("threadsim: step cap exceeded")
+            # an unexpectedly long run: no further seeded pre-emptions (the threads simply
+            # run on in priority order); cost is bounded by design in the generator
+            self.walk_next = INF
+            self.capped = True
+            self._arm(me)
+            return
         if self.gtrig and self.gtrig[0] <= g:
             self.gtrig.pop(0)
             self._yield_to_next(me, ["step", me, ls])
@@ -534,7 +553,18 @@ def make_tracer(sched, tid, roots, et_file, profile=None):
             codecache[code] = r
         return r
 
-    if profile is None:
+    if profile is None and len(S) > 5:
+        hotset = S[5]
+
+        def local_trace(frame, event, arg):
+            if event == "line" or event == "opcode":
+                S[0] = c = S[0] + 1
+                ln = frame.f_lineno
+                if c >= S[1] or (S[2] == ln and frame.f_code.co_filename.endswith(S[3])) \
+                        or (event == "line" and ln in hotset):
+                    slow(tid, frame.f_code.co_filename, ln if event == "line" else -2)
+            return local_trace
+    elif profile is None:
         def local_trace(frame, event, arg):
             if event == "line" or event == "opcode":
                 S[0] = c = S[0] + 1
@@ -908,6 +938,8 @@ def canonical(prog):
             c = [["version", kw.get("version")]]
             if "mask_pattern" in kw:
                 c.append(["mask_pattern", 0])
+            if "box_size" in kw:
+                c.append(["box_size", kw["box_size"]])     # decides the cost, not the lines
             out.append(["new", c])
         elif st[0] == "add":
             out.append(list(st))        # payload and threshold decide which lines run
@@ -1005,6 +1037,9 @@ def run_case(case, ref):
     stats.inc("fault.preemptions", len(sched.switch_log))
     stats.inc("fault.preemptions_at_shared_access", sched.windows)
     stats.inc("fault.forced_switches_on_contended_lock", sched.lock_waits)
+    if sched.capped:
+        stats.inc("probe.point_cap_reached")
+    stats.inc("fault.hot_line_points", sched.hot_hits)
     for k in changed:
         stats.inc("probe.global_changed." + k)
     acc_hash = core.short_hash(repr(sched.access_log))
@@ -1091,7 +1126,8 @@ def _brief(r):
 # generation
 # --------------------------------------------------------------------------
 
-PAYLOADS = ["a", "HELLO", "12345", "thread data", b"\x00\x01", "x" * 30, "7" * 40]
+PAYLOADS = ["a", "HELLO", "12345", "thread data", b"\x00\x01", "x" * 30, "7" * 40, "HELLO WORLD 123",
+            "ticket-001", "ticket-002"]
 
 
 SVG_DRAWER_ALIASES = ["circle", "gapped-circle", "gapped-square"]
@@ -1111,7 +1147,18 @@ def _gen_drawers(rng):
     return [kw]
 
 
-def gen_program(rng, shared_versions, tier, second=False):
+def _gen_styled_kwargs(rng, force=False):
+    kw = []
+    if force or rng.random() < 0.8:
+        kw.append(["module_drawer", rng.choice(STYLED_DRAWERS)])
+    if rng.random() < 0.3:
+        kw.append(["eye_drawer", rng.choice(STYLED_DRAWERS)])
+    if rng.random() < 0.3:
+        kw.append(["color_mask", rng.choice(STYLED_MASKS)])
+    return kw
+
+
+def gen_program(rng, shared_versions, tier, second=False, styled_p=0.045):
     v = rng.choice(shared_versions) if rng.random() < 0.8 else rng.randint(1, 3)
     kw = [["version", v]]
     auto_mask = rng.random() < 0.05
@@ -1149,10 +1196,17 @@ def gen_program(rng, shared_versions, tier, second=False):
             prog.append(["image", "svgpath", "save"] + _gen_drawers(rng))
         elif r < 0.82:
             prog.append(["image", "pypng", "save"])
-        elif r < 0.93:
+        elif r < 1.0 - styled_p:
             prog.append(["image", "pil", "save"])
         else:
-            prog.append(["image", "styled", "save"])
+            kw = _gen_styled_kwargs(rng)
+            prog.append(["image", "styled", "save"] + ([kw] if kw else []))
+    if any(st[0] == "image" and st[1] == "styled" for st in prog):
+        # StyledPilImage recolours pixel by pixel in Python (every pixel is a few traced
+        # lines): version 1, boxes of 4 pixels (the antialiased shapes degenerate below
+        # that), no border - about 7 k pixels, 350 k points
+        keep = [kv for kv in prog[0][1] if kv[0] not in ("box_size", "version", "border")]
+        prog[0][1] = [["version", 1]] + keep + [["box_size", 4], ["border", 0]]
     if not second and rng.random() < 0.08:
         # the module-level shortcut (own throw-away object, default factory)
         prog.append(["shortcut", enc_payload(rng.choice(PAYLOADS[:4])),
@@ -1167,9 +1221,11 @@ def gen_automask_case(rng, tier):
     the eight trial compilations and the penalty scoring of one thread run
     interleaved with another thread's."""
     n = rng.choice([2, 2, 3])
-    v = rng.choice([1, 1, 1, 2])
+    v0 = rng.choice([1, 1, 1, 2])
+    mixed = rng.random() < 0.45            # symbols of different sizes scored concurrently
     threads = []
     for _ in range(n):
+        v = rng.choice([1, 2]) if mixed else v0
         kw = [["version", v], ["box_size", 1]]
         if rng.random() < 0.3:
             kw.append(["error_correction", rng.choice([0, 1, 2, 3])])
@@ -1186,7 +1242,7 @@ def generate(rng, tier, opts=None):
     shared_versions = [rng.choice([1, 1, 1, 2, 2, 3] if tier == "quick" else [1, 1, 2, 2, 3, 4, 5, 7])
                        for _ in range(rng.choice([1, 1, 2]))]
     threads = [gen_program(rng, shared_versions, tier) for _ in range(n)]
-    automask = rng.random() < 0.12
+    automask = rng.random() < 0.14
     if automask:
         threads = gen_automask_case(rng, tier)
         n = len(threads)
@@ -1194,7 +1250,8 @@ def generate(rng, tier, opts=None):
         # twins: every thread runs the same program shape (same version, box size,
         # factory, drawers) on its own data - maximal contention on anything that is
         # keyed by size or by renderer
-        base = gen_program(rng, shared_versions, tier, second=True)
+        base = gen_program(rng, shared_versions, tier, second=True,
+                           styled_p=0.2 if rng.random() < 0.5 else 0.045)
         threads = []
         for _ in range(n):
             prog = [list(st) for st in base]
@@ -1205,10 +1262,26 @@ def generate(rng, tier, opts=None):
                     st[1] = [list(kv) if kv[0] != "mask_pattern" else
                              ["mask_pattern", rng.randrange(8)] for kv in st[1]]
             threads.append(prog)
+        if rng.random() < 0.45:
+            # cousins: same renderer at the same size, but every thread with its own
+            # drawers / colour mask (state keyed by size while the shapes differ)
+            for prog in threads:
+                for st in prog:
+                    if st[0] == "image" and st[1] in ("svg", "svgpath"):
+                        del st[3:]
+                        st.extend(_gen_drawers(rng))
+                    elif st[0] == "image" and st[1] == "styled":
+                        del st[3:]
+                        st.append(_gen_styled_kwargs(rng, force=True))
     r = rng.random()
     if automask:
         r = 0.3 + 0.58 * r       # accesses are not where this one hides: loc / pct / walk
-    if r < 0.3:
+    if static_hot_lines() and rng.random() < 0.35:
+        # the tree stores to module globals / class attributes inside functions: treat those
+        # lines (and the lines reading them) as access points
+        strategy = {"kind": "hot", "p_hot": rng.choice([0.5, 0.3]),
+                    "p_access": rng.choice([0.0, 0.3])}
+    elif r < 0.3:
         strategy = {"kind": "access", "p_access": rng.choice([0.5, 0.3, 0.15])}
     elif r < 0.6:
         strategy = {"kind": "loc", "targets": rng.choice([1, 1, 2, 3])}
